@@ -14,6 +14,28 @@ def _src_frame(text):
     return m.group(1) if m else None
 
 
+def _collect(path, results):
+    """parse '<lineno> tokens...' result lines of a driver shard into results; returns the number of lines"""
+    n = 0
+    for ln in open(path):
+        parts = ln.split()
+        if parts and parts[0].isdigit():
+            results[int(parts[0])] = parts[1:]
+            n += 1
+    return n
+
+
+def differs_from_native(san, native):
+    """[(lineno, native tokens, sanitizer-run tokens)] for every case both runs completed with different tokens.
+    The code is deterministic and single-threaded: the interpreter / instrumented run must return what the native run returns."""
+    out = []
+    for i, toks in sorted(san.get('results', {}).items()):
+        nat = native.get(i)
+        if nat is not None and nat != toks:
+            out.append((i, nat, toks))
+    return out
+
+
 def memcheck(binary, casefile, nlines, tag, nshards=None, timeout=3000):
     if not shutil.which('valgrind'):
         return {'tool': 'memcheck', 'ops_executed': 0, 'reports': [], 'inconclusive': 'valgrind not installed'}
@@ -27,6 +49,7 @@ def memcheck(binary, casefile, nlines, tag, nshards=None, timeout=3000):
         cmd = ['valgrind', '--tool=memcheck', '--leak-check=no', '--error-exitcode=0', '--num-callers=30', '--log-file=' + log, binary, casefile, str(s), str(nshards)]
         procs.append((subprocess.Popen(cmd, stdout=out, stderr=subprocess.DEVNULL), out, log))
     reports, ops, inc = [], 0, None
+    results = {}
     deadline = time.time() + timeout
     for p, out, log in procs:
         try:
@@ -35,7 +58,7 @@ def memcheck(binary, casefile, nlines, tag, nshards=None, timeout=3000):
             p.kill(); p.wait(); inc = 'memcheck watchdog'
             rc = None
         out.close()
-        ops += sum(1 for _ in open(out.name))
+        ops += _collect(out.name, results)
         if rc not in (0, None):
             inc = inc or ('memcheck shard exited with %s' % rc)
         if os.path.exists(log):
@@ -43,7 +66,7 @@ def memcheck(binary, casefile, nlines, tag, nshards=None, timeout=3000):
             for blk in re.split(r'\n==\d+== \n', txt):
                 if re.search(r'Invalid (read|write)|uninitialised|Conditional jump|Mismatched|Invalid free|overlap', blk):
                     reports.append({'kind': re.search(r'==\d+== ([^\n]+)', blk).group(1), 'crate_frame': _first_crate_frame(blk), 'text': blk[:1500]})
-    return {'tool': 'memcheck', 'ops_executed': ops, 'reports': reports, 'inconclusive': inc}
+    return {'tool': 'memcheck', 'ops_executed': ops, 'reports': reports, 'inconclusive': inc, 'results': results}
 
 
 def asan(cfg, casefile, nlines, tag, nshards=None, timeout=3000):
@@ -60,6 +83,7 @@ def asan(cfg, casefile, nlines, tag, nshards=None, timeout=3000):
         err = open(os.path.join(wd, '%s.asanerr.%d' % (tag, s)), 'w')
         procs.append((subprocess.Popen([binary, casefile, str(s), str(nshards)], stdout=out, stderr=err, env=env), out, err))
     reports, ops, inc = [], 0, None
+    results = {}
     deadline = time.time() + timeout
     for p, out, err in procs:
         try:
@@ -67,14 +91,14 @@ def asan(cfg, casefile, nlines, tag, nshards=None, timeout=3000):
         except subprocess.TimeoutExpired:
             p.kill(); p.wait(); rc = None; inc = 'asan watchdog'
         out.close(); err.close()
-        ops += sum(1 for _ in open(out.name))
+        ops += _collect(out.name, results)
         etxt = open(err.name).read()
         if 'AddressSanitizer' in etxt:
             reports.append({'kind': (re.search(r'ERROR: AddressSanitizer: ([^\n]+)', etxt) or [None, 'asan report'])[1], 'crate_frame': _first_crate_frame(etxt), 'text': etxt[:1500]})
         elif rc not in (0, None):
             # a crash without an ASan report (SIGSEGV/SIGILL/abort): reported as a crash
             reports.append({'kind': 'crash rc=%s' % rc, 'crate_frame': _first_crate_frame(etxt), 'text': etxt[-800:]})
-    return {'tool': cfg, 'ops_executed': ops, 'reports': reports, 'inconclusive': inc}
+    return {'tool': cfg, 'ops_executed': ops, 'reports': reports, 'inconclusive': inc, 'results': results}
 
 
 def miri(casefile, nlines, tag, target_features='', extra_flags='', features='', nshards=None, timeout=3000):
